@@ -3,7 +3,7 @@
    Transparency of the individual operations is the content of the theorems of C05, C06, C10, C11, C12, C14: each of them
    characterises the result through the logical accessor `at_` only, for either storage order of each operand, and pins
    the result order to the left operand's (`m_order` of the result in C11/C12).  This file states equality. *)
-From Matreex Require Import Model.Ops Proofs.Layout Proofs.Elementwise Proofs.OrderOps.
+From Matreex Require Import Model.Ops Proofs.Layout Proofs.Elementwise Proofs.OrderOps Proofs.OrderTransparency.
 
 Example C07_instance :
   matrix_eqb (cfg64 true) Z.eqb (mat_of_fun RowMajor 2 3 (fun r c => r * 10 + c)) (mat_of_fun ColMajor 2 3 (fun r c => r * 10 + c)) = Val true /\
@@ -38,3 +38,66 @@ Proof.
     intros i j x y Hi Hj Hx Hy. apply (H3 i j x y Hi Hj Hx). rewrite Hat by lia. exact Hy.
 Qed.
 Print Assumptions C07_eq_order_transparent.
+
+(* ---------- the other operations: equal logical grids in, equal logical grids out ----------
+   grid_eq m1 m2: the same logical shape and the same element at every logical position, whatever the two storage orders.
+   Each theorem is a corollary of the operation's specification (C05, C10, C11, C12, C14), which is stated through the
+   logical accessor only. *)
+Theorem C07_transpose_transparent : forall (A : Type) (c : cfg) (es : Z) (m1 m2 : matrix A),
+  Coh c es m1 -> Coh c es m2 -> 0 < es -> grid_eq m1 m2 ->
+  exists t1 t2, transpose c es m1 = Val t1 /\ transpose c es m2 = Val t2 /\ grid_eq t1 t2.
+Proof. intros A c es m1 m2. exact (transpose_transparent c es m1 m2). Qed.
+Print Assumptions C07_transpose_transparent.
+
+(* switching the order of one operand is itself invisible: grid_eq m (switch_order m) *)
+Theorem C07_switch_order_transparent : forall (A : Type) (c : cfg) (es : Z) (m1 m2 : matrix A),
+  Coh c es m1 -> Coh c es m2 -> 0 < es -> grid_eq m1 m2 ->
+  exists t1 t2, switch_order c es m1 = Val t1 /\ switch_order c es m2 = Val t2 /\ grid_eq t1 t2 /\ grid_eq m1 t1.
+Proof. intros A c es m1 m2. exact (switch_order_transparent c es m1 m2). Qed.
+Print Assumptions C07_switch_order_transparent.
+
+Theorem C07_swaps_transparent : forall (A : Type) (c : cfg) (es : Z) (m1 m2 : matrix A) (a b : Z),
+  Coh c es m1 -> Coh c es m2 -> grid_eq m1 m2 ->
+  (0 <= a < nrows m1 -> 0 <= b < nrows m1 ->
+     exists t1 t2, swap_rows c m1 a b = Val (Ok t1) /\ swap_rows c m2 a b = Val (Ok t2) /\ grid_eq t1 t2) /\
+  (0 <= a < ncols m1 -> 0 <= b < ncols m1 ->
+     exists t1 t2, swap_cols c m1 a b = Val (Ok t1) /\ swap_cols c m2 a b = Val (Ok t2) /\ grid_eq t1 t2).
+Proof.
+  intros A c es m1 m2 a b H1 H2 G. split; intros Ha Hb.
+  - exact (swap_rows_transparent c es m1 m2 a b H1 H2 Ha Hb G).
+  - exact (swap_cols_transparent c es m1 m2 a b H1 H2 Ha Hb G).
+Qed.
+Print Assumptions C07_swaps_transparent.
+
+Theorem C07_overwrite_transparent : forall (A : Type) (c : cfg) (es : Z) (clone : A -> A) (d1 d2 s1 s2 : matrix A),
+  Coh c es d1 -> Coh c es d2 -> Coh c es s1 -> Coh c es s2 -> grid_eq d1 d2 -> grid_eq s1 s2 ->
+  exists t1 t2, overwrite c clone d1 s1 = Val t1 /\ overwrite c clone d2 s2 = Val t2 /\ grid_eq t1 t2.
+Proof. intros A c es clone d1 d2 s1 s2. exact (overwrite_transparent c es clone d1 d2 s1 s2). Qed.
+Print Assumptions C07_overwrite_transparent.
+
+(* elementwise operations and the matrix product: the same error, or results with the same logical grid *)
+Theorem C07_elementwise_transparent : forall (L R U : Type) (c : cfg) (esL esR esU : Z) (op : L -> R -> U)
+    (a1 a2 : matrix L) (b1 b2 : matrix R),
+  wf c -> 0 <= esU -> Coh c esL a1 -> Coh c esL a2 -> Coh c esR b1 -> Coh c esR b2 -> grid_eq a1 a2 -> grid_eq b1 b2 ->
+  match elementwise_operation c esU op a1 b1, elementwise_operation c esU op a2 b2 with
+  | Val (Ok p1), Val (Ok p2) => grid_eq p1 p2
+  | Val (Err e1), Val (Err e2) => e1 = e2
+  | _, _ => False
+  end.
+Proof. intros L R U c esL esR esU op a1 a2 b1 b2 Hwf HU. exact (elementwise_transparent c Hwf esL esR esU HU op a1 a2 b1 b2). Qed.
+Print Assumptions C07_elementwise_transparent.
+
+Theorem C07_product_transparent : forall (L R U : Type) (c : cfg) (esL esR esU : Z) (dflt : U) (mul : L -> R -> U) (add : U -> U -> U)
+    (a1 a2 : matrix L) (b1 b2 : matrix R),
+  wf c -> 0 <= esU -> 0 < esL -> 0 < esR -> Coh c esL a1 -> Coh c esL a2 -> Coh c esR b1 -> Coh c esR b2 ->
+  grid_eq a1 a2 -> grid_eq b1 b2 ->
+  match multiply c esL esR esU dflt mul add a1 b1, multiply c esL esR esU dflt mul add a2 b2 with
+  | Val (Ok p1), Val (Ok p2) => grid_eq p1 p2
+  | Val (Err e1), Val (Err e2) => e1 = e2
+  | _, _ => False
+  end.
+Proof.
+  intros L R U c esL esR esU dflt mul add a1 a2 b1 b2 Hwf HU HL HR.
+  exact (multiply_transparent c Hwf esL esR esU HU HL HR dflt mul add a1 a2 b1 b2).
+Qed.
+Print Assumptions C07_product_transparent.
